@@ -98,6 +98,12 @@ func ruleD1(p *Prog, r *Report) {
 				}
 				return
 			}
+			if !scope[top] && !isExportedAPI(top) && len(p.CallersOf(top)) > 0 && !p.IsTestFile(top.Pos()) {
+				// a private helper that deterministic code cannot reach: it only serves order-relaxed routines
+				r.Ok(R, cons, p.InstrPos(in), "private helper reachable only from routines that are order-relaxed by contract")
+				nClassified++
+				return
+			}
 			next, keys := rangeKeyValues(rg)
 			if next == nil {
 				r.Unk(R, cons, p.InstrPos(in), "range without next")
